@@ -42,13 +42,20 @@ Inductive rt_event :=
 | RtTick                                                   (* coap_io_prepare_epoll(ctx, now) *)
 | RtAck (sess mid : Z)                                     (* ACK with that mid read from sess *)
 | RtRst (sess mid : Z)                                     (* RST with that mid read from sess *)
+| RtNon (sess mid : Z) (tok : list Z)                      (* NON response with that token (and any
+                                                              mid: the peer's id space) from sess *)
+| RtDisconnect (sess reason : Z)                           (* coap_session_disconnected(sess, reason),
+                                                              reason not ICMP_ISSUE *)
 | RtDump.                                                  (* observation of the queue *)
 
 Definition rt_NACK_TOO_MANY_RETRIES : Z := 0.
 Definition rt_NACK_RST : Z := 2.
+Definition rt_NACK_ICMP_ISSUE : Z := 4.
 
 Inductive rt_out :=
-| RoTx (t uid sess : Z) (bytes : list Z)       (* datagram handed to the socket at time t *)
+| RoTx (t uid sess : Z) (bytes : list Z) (cnt tmo : Z)
+                                              (* datagram handed to the socket at time t; ghost:
+                                                 retransmit_cnt and timeout of the node then *)
 | RoSent (mid : Z)                             (* return value of coap_send *)
 | RoNack (t uid sess reason mid cnt mx : Z)    (* nack handler called with the sent PDU;
                                                  ghost: retransmit_cnt and max_retransmit then *)
@@ -72,14 +79,14 @@ Definition rt_send (st : rt_state) (s m : Z) (bytes : list Z) (cfg : rt_cfg) (r 
   let T := fp_calc_timeout (rc_at_ip cfg) (rc_at_fp cfg) (rc_arf_ip cfg) (rc_arf_fp cfg) r in
   let n := sq_mk_node (rs_uid st) s m 0 T (rc_max cfg) bytes in
   let st1 := rt_mk_state (rs_now st) (rs_base st) (rs_q st) (rs_uid st + 1) in
-  (rt_enqueue st1 n T, [RoTx (rs_now st) (rs_uid st) s bytes; RoSent m]).
+  (rt_enqueue st1 n T, [RoTx (rs_now st) (rs_uid st) s bytes 0 T; RoSent m]).
 
 (* coap_retransmit(context, node) for a node that was just popped *)
 Definition rt_retransmit (st : rt_state) (n : sq_node) : rt_state * list rt_out :=
   if qn_cnt n <? qn_max n then
     let c := (qn_cnt n + 1) mod 256 in                      (* unsigned char retransmit_cnt *)
     let n' := sq_mk_node (qn_uid n) (qn_sess n) (qn_mid n) c (qn_timeout n) (qn_max n) (qn_bytes n) in
-    (rt_enqueue st n' (qn_timeout n * 2 ^ c), [RoTx (rs_now st) (qn_uid n) (qn_sess n) (qn_bytes n)])
+    (rt_enqueue st n' (qn_timeout n * 2 ^ c), [RoTx (rs_now st) (qn_uid n) (qn_sess n) (qn_bytes n) c (qn_timeout n)])
   else
     (st, [RoNack (rs_now st) (qn_uid n) (qn_sess n) rt_NACK_TOO_MANY_RETRIES (qn_mid n) (qn_cnt n) (qn_max n)]).
 
@@ -144,6 +151,60 @@ Definition rt_rst (st : rt_state) (s m : Z) : rt_state * list rt_out :=
       let (st1, o) := rt_fire_all st in (st1, RoNackNoPdu (rs_now st) s rt_NACK_RST m :: o)
   end.
 
+(* the token of an encoded PDU (TKL <= 8): bytes 4 .. 4+TKL *)
+Definition rt_token_of (bytes : list Z) : list Z :=
+  match bytes with
+  | [] => []
+  | b0 :: _ => firstn (Z.to_nat (b0 mod 16)) (skipn 4 bytes)
+  end.
+
+Fixpoint rt_bytes_eqb (a b : list Z) : bool :=
+  match a, b with
+  | [], [] => true
+  | x :: a', y :: b' => (x =? y) && rt_bytes_eqb a' b'
+  | _, _ => false
+  end.
+
+Definition rt_tok_match (s : Z) (tok : list Z) (n : sq_node) : bool :=
+  (qn_sess n =? s) && rt_bytes_eqb (rt_token_of (qn_bytes n)) tok.
+
+(* a Non-confirmable RESPONSE read from a session: handle_response cancels every queued message
+   of that session with the response's token (coap_cancel_all_messages: the response is the
+   implicit acknowledgement, RFC 7252 5.2.2), no NACK; the message id of the NON is the peer's
+   and plays no role (/repo 0c2a709) *)
+Definition rt_non (st : rt_state) (s : Z) (tok : list Z) : rt_state * list rt_out :=
+  let (rm, q') := sq_cancel (rt_tok_match s tok) (rs_q st) in
+  let (st1, o) := rt_fire_all (rt_set_q st q') in
+  (st1, map (fun n => RoAcked (rs_now st) (qn_uid n)) rm ++ o).
+
+(* coap_session_disconnected(session, reason) for reason <> COAP_NACK_ICMP_ISSUE on a datagram
+   session with an empty delay queue: coap_cancel_session_messages removes every queued message
+   of the session and calls the NACK handler once for each (as repaired: before, the first one
+   was reported twice - rt_disconnect_old); if the session has nothing queued the handler is
+   called once without PDU and with mid 0.  No prepare call follows. *)
+Definition rt_sess_match (s : Z) (n : sq_node) : bool := qn_sess n =? s.
+
+Definition rt_nack_of (t reason : Z) (n : sq_node) : rt_out :=
+  RoNack t (qn_uid n) (qn_sess n) reason (qn_mid n) (qn_cnt n) (qn_max n).
+
+Definition rt_disconnect (st : rt_state) (s reason : Z) : rt_state * list rt_out :=
+  let (rm, q') := sq_cancel (rt_sess_match s) (rs_q st) in
+  (rt_set_q st q',
+   match rm with
+   | [] => [RoNackNoPdu (rs_now st) s reason 0]
+   | _ => map (rt_nack_of (rs_now st) reason) rm
+   end).
+
+(* the function as it was: "take the first one" reported the first queued message of the session
+   before the loop reported all of them *)
+Definition rt_disconnect_old (st : rt_state) (s reason : Z) : rt_state * list rt_out :=
+  let (rm, q') := sq_cancel (rt_sess_match s) (rs_q st) in
+  (rt_set_q st q',
+   match rm with
+   | [] => [RoNackNoPdu (rs_now st) s reason 0]
+   | n :: _ => rt_nack_of (rs_now st) reason n :: map (rt_nack_of (rs_now st) reason) rm
+   end).
+
 Definition rt_step (st : rt_state) (ev : rt_event) : rt_state * list rt_out :=
   match ev with
   | RtAdvance dt => (rt_mk_state (rs_now st + dt) (rs_base st) (rs_q st) (rs_uid st), [])
@@ -151,6 +212,8 @@ Definition rt_step (st : rt_state) (ev : rt_event) : rt_state * list rt_out :=
   | RtTick => rt_tick st
   | RtAck s m => rt_ack st s m
   | RtRst s m => rt_rst st s m
+  | RtNon s _ tok => rt_non st s tok
+  | RtDisconnect s reason => rt_disconnect st s reason
   | RtDump => (st, [RoDump (rs_now st) (sq_abs (rs_base st) (rs_q st))])
   end.
 
